@@ -36,5 +36,5 @@ Example C18_lock_example :
   let svc := Service (fun _ => Err ENotFound) (fun _ _ => Err ENotFound)
                      (fun _ _ => Ok (NpmReqs (Deps [] [] [] [] []) [])) in
   sections_of reader_mode writer_mode svc (ORequirements (VK [97] Concrete [49])) = [CS LExclusive AccWrite] /\
-  sections_of reader_mode writer_mode svc (OVersions [97;62;49;62;98]) = [CS LExclusive AccRead].
+  sections_of reader_mode writer_mode svc (OVersions [97;62;49;62;98]) = [CS reader_mode AccRead].
 Proof. vm_compute. split; reflexivity. Qed.
